@@ -61,6 +61,16 @@ func streamEq(o *Out, r *rand.Rand, n int, thorough bool) {
 				pairs = append(pairs, pair{i, j}, pair{j, i})
 			}
 		}
+		// every pair of containers (structural comparison: lengths, key sets, nil entries, nesting)
+		nsc := len(vals.Scalars())
+		for i := nsc; i < len(pool); i++ {
+			for j := nsc; j < len(pool); j++ {
+				if i%3 == 0 && j%3 == 0 {
+					continue
+				}
+				pairs = append(pairs, pair{i, j})
+			}
+		}
 		for k := 0; k < n; k++ {
 			pairs = append(pairs, pair{r.Intn(len(pool)), r.Intn(len(pool))})
 		}
